@@ -100,8 +100,17 @@ class _Linalg:
         s = SReal(0)
         for e in x.flat:
             s = s + _abs2(e)
-        r = s.sqrt()
         c = cur()
+        if c.norm_unit_check and not s.is_const() and c.hyps:
+            # ||x||^2 = 1 provable from the contract hypotheses (unit-norm
+            # eigen/singular vectors)?  then the norm is the constant 1
+            from .linearize import LinProver
+            lp = LinProver(c)
+            lp.inst_budget_s = 5.0
+            st, _ = lp.prove_zero([(s - 1).p], rounds=1)
+            if st == 'unsat':
+                return SReal(1)
+        r = s.sqrt()
         if c.norm_positive and not r.is_const():
             single = r.p.monomial_single()
             if single is not None:
